@@ -302,12 +302,19 @@ def _job_natsum_inject(arg):
     from harness import calls
 
     out = []
-    for ns in arg:
+    for k, ns in enumerate(arg):
         try:
             obs = calls.run_summary_injected(ns)
         except Exception as e:  # noqa: BLE001
             obs = {"kind": "raised", "pred": 0, "lower": 0, "upper": 0, "exc": f"{type(e).__name__}: {str(e)[:200]}"}
-        out.append({"kind": "inject", "ns": dict(ns, history=[]), "obs": obs})
+        earlier = obs
+        if k % 3 == 1 and obs["kind"] == "ok":
+            # every third scenario also on a model object that served an earlier round of calls with other lists
+            try:
+                earlier = calls.run_summary_injected(ns, earlier_round=True)
+            except Exception as e:  # noqa: BLE001
+                earlier = {"kind": "raised", "pred": 0, "lower": 0, "upper": 0, "exc": f"{type(e).__name__}: {str(e)[:200]}"}
+        out.append({"kind": "inject", "ns": dict(ns, history=[]), "obs": obs, "earlier": {k2: earlier[k2] for k2 in ("kind", "pred", "lower", "upper")}})
         if len(out) % 5 == 0 and ns["nweights"] == len(ns["p"]):
             # the same scenario under the sigmoid threshold (agg_model_hard_threshold = False): the summary is then a real
             # number and only the ordering clause of the property applies (seeded change C08_E)
